@@ -741,6 +741,61 @@ func (sc *Scope) call(n *ast.CallExpr) Val {
 			}
 			o := *sc.old
 			return boolVal(app("bvuge", a.L[0], e.getRaw(&o, "$alloc")))
+		case "vdiff":
+			// vdiff(a, b): a-b as a termination measure (widened to int64 for operands narrower than 64 bits)
+			if len(n.Args) != 2 {
+				return sc.fail("vdiff arity")
+			}
+			a, b := sc.expr(n.Args[0]), sc.expr(n.Args[1])
+			if a.C != nil && b.C != nil {
+				return untyped(new(big.Int).Sub(a.C, b.C))
+			}
+			if a.C != nil {
+				a = sc.at_(a, b.T)
+			}
+			if b.C != nil {
+				b = sc.at_(b, a.T)
+			}
+			if len(a.L) != 1 || len(b.L) != 1 || !isInt(a.T) || !isInt(b.T) {
+				return sc.fail("vdiff operands")
+			}
+			// operands that are widening conversions of narrower integers (plus constants) cannot exceed 2^33: measure in int64
+			narrow := func(x ast.Expr) bool {
+				ok := true
+				ast.Inspect(x, func(m ast.Node) bool {
+					if m == nil {
+						return true
+					}
+					switch y := m.(type) {
+					case *ast.CallExpr:
+						if id, isId := y.Fun.(*ast.Ident); isId && len(y.Args) == 1 && (id.Name == "uint64" || id.Name == "int64" || id.Name == "int" || id.Name == "uint") {
+							inner := sc.expr(y.Args[0])
+							if inner.C == nil && (len(inner.L) != 1 || !isInt(inner.T) || widthOf(inner.T) >= 64) {
+								ok = false
+							}
+							return false
+						}
+						ok = false
+						return false
+					case *ast.Ident, *ast.SelectorExpr:
+						v := sc.expr(m.(ast.Expr))
+						if v.C == nil && (len(v.L) != 1 || !isInt(v.T) || widthOf(v.T) >= 64) {
+							ok = false
+						}
+						return false
+					case *ast.BasicLit, *ast.BinaryExpr, *ast.ParenExpr:
+						return true
+					}
+					ok = false
+					return false
+				})
+				return ok
+			}
+			if widthOf(a.T) == 64 && widthOf(b.T) == 64 && isSigned(a.T) == isSigned(b.T) && !(narrow(n.Args[0]) && narrow(n.Args[1])) {
+				return Val{T: a.T, L: []string{app("bvsub", a.L[0], b.L[0])}}
+			}
+			i64 := types.Typ[types.Int64]
+			return Val{T: i64, L: []string{app("bvsub", resize(a.L[0], widthOf(a.T), 64, isSigned(a.T)), resize(b.L[0], widthOf(b.T), 64, isSigned(b.T)))}}
 		case "implements":
 			// implements(x, "io.ReadSeeker"): the dynamic type of interface value x implements the named interface
 			a := sc.expr(n.Args[0])
